@@ -912,8 +912,10 @@ def build_backbone(rng, links, *, chains=1, icn="?", ocn="?", absent_occ=None, h
             else:
                 num, ic = num + 1, ""
         if hetero_tail and rng.random() < 0.5:
-            res = {"ch": ch, "num": num + 100, "ic": "", "rn": "HOH", "het": 1, "lch": "W", "lnum": 0, "icn": icn, "ocn": ocn}
-            lines.append(_line(1, res, "O", _add(origin, (-9000, -9000, 4000 + 3000 * c))))
+            # a water - or a sodium ion, whose names read like a missing-value marker ("NA")
+            rn, an = rng.choice([("HOH", "O"), ("NA", "NA")])
+            res = {"ch": ch, "num": num + 100, "ic": "", "rn": rn, "het": 1, "lch": "W", "lnum": 0, "icn": icn, "ocn": ocn}
+            lines.append(_line(1, res, an, _add(origin, (-9000, -9000, 4000 + 3000 * c))))
     if absent_occ is not None and not any(ln["occ"] < 0 for ln in lines):
         lines[0]["occ"] = -1
     return lines
